@@ -503,6 +503,24 @@ func (fx *fnExec) checkPost(e *Exit) {
 	if c.PanicKind == "always" {
 		s.oblig("post", "never-returns"+suffix, fx.topSafety(), final.reach, "false", fx.posOf(e.Pos), "function declared `panics always` has a normal exit")
 	}
+	if os.Getenv("VERIF_PFDEBUG") != "" && len(e.Results) == 1 {
+		// diagnosis aid: the conjuncts of pf(result) as separate (untracked) obligations
+		if ref, _, _, ok := refOf(e.Results[0]); ok {
+			var ht string
+			switch x := e.Results[0].(type) {
+			case PtrV:
+				ht = x.HT
+			}
+			if ht != "" {
+				if _, _, _, ok := fx.posInv(final, ht, ref); ok {
+					parts, desc := fx.lastPFParts, fx.lastPFDesc
+					for i := range parts {
+						s.oblig("pfdebug", fmt.Sprintf("%d%s", i, suffix), []string{"debug"}, final.reach, parts[i], fx.posOf(e.Pos), desc[i]).NoAssume = true
+					}
+				}
+			}
+		}
+	}
 	for k, en := range c.Ensures {
 		label := en.Label
 		if label == "" {
